@@ -1339,7 +1339,7 @@ def gen_proto(rng, depth):
         deps = [f["att"] for f in fields if f["role"] == "plain" and f["ty"] == tyname and not f["mode"]]
         if deps and (rng.random() < 0.5 or material == tyname):
             pick = rng.sample(deps, min(len(deps), rng.randint(2, 3) if material == tyname else rng.randint(1, 2)))
-            fields.append({"att": "total" if kind == "sum" else "label", "alias": rng.choice([None, None, "grandTotal" if kind == "sum" else "Label"]),
+            fields.append({"att": "total" if kind == "sum" else "label", "alias": rng.choice([None, None, "grandTotal" if kind == "sum" else "LabelText"]),
                            "alias_from": [], "ci": None, "role": "prop", "default": None, "mode": None, "expr": [kind, pick], "ty": tyname})
     if recursive:
         k = rng.choice(["opt", "list", "both"])
@@ -1349,6 +1349,17 @@ def gen_proto(rng, depth):
         if k in ("list", "both"):
             fields.append({"att": "replies", "alias": None, "alias_from": [], "ci": None, "role": "default", "default": {"list": []},
                            "mode": None, "rec": "list", "ty": {"list": {"self": None}}})
+    if rng.random() < 0.03 and not recursive:
+        # a declaration utype refuses (key conflicts): `declChecked` must refuse it too
+        f = rng.choice([g for g in fields if g.get("role") != "prop"])
+        others = [g["att"] for g in fields if g is not f and g.get("role") != "prop"]
+        k = rng.choice(["other", "case", "alias"])
+        if k == "other" and others:
+            f["alias_from"] = list(f.get("alias_from") or []) + [rng.choice(others)]
+        elif k == "case" and f.get("role") != "prop":
+            f["alias"], f["ci"] = f["att"].capitalize(), True
+        elif others and f.get("role") != "prop":
+            f["alias"] = rng.choice(others)
     return {"id": cid, "opts": opts, "fields": fields}
 
 
@@ -1890,7 +1901,7 @@ class C14(Check):
     driver = "C14"
     impl = "harness.c14:impl"
     case_timeout = 20.0
-    budget = {"quick": 8000, "thorough": 150000}
+    budget = {"quick": 5000, "thorough": 120000}
     search_budget = {"quick": 3000, "thorough": 20000}
     rule = ("seeded data-class declarations x boundary-rich instances x encoder entry point, in three equal streams: (1) one field "
             "of a random type; (2) 1-3 plain required fields; (3) the class side - Field(alias) / alias_generator camel|pascal / "
@@ -1966,7 +1977,12 @@ class C14(Check):
         if not isinstance(mo, dict) or "enc" not in mo:
             return f"driver: {str(mo)[:200]}"
         if io.get("init") != "ok":
-            return None          # not constructible: no instance to talk about
+            # not constructible: no instance to talk about - but a declaration utype refuses for a key conflict must
+            # fail the Lean `declChecked` as well (and one it accepts must pass it: the domain cross-check below)
+            if "ConfigError" in str(io.get("init")) and "conflict" in str(io.get("init")) and mo.get("declChecked") is True \
+                    and is_rich(case["ty"]) and '"id"' not in json.dumps(case["ty"]["data"]["fields"]):     # (no nested class that could be the refused one)
+                return f"utype refuses the declaration ({io['init'][:90]}) but declChecked holds"
+            return None
         if canon_val(mo["echo"]) != canon_val(case["val"]):
             return "driver decoded a different instance"
         if "state" in io:
@@ -2076,6 +2092,8 @@ class C14(Check):
     def distribution(self, case, io):
         if case.get("probe"):
             return "probe/" + shape(case["ty"]["data"][0][1])
+        if io.get("init") != "ok":
+            return "refused/" + str(io.get("init"))[:40]
         cl = set()
         leaf_classes(case["ty"], case["val"], cl)
         heads = sorted({c.split(":")[0] for c in cl})
